@@ -117,7 +117,7 @@ def main(chk, tier, seed):
     chk.rule = RULE
     chk.assumptions = ["min-mode instances have non-negative costs; max-mode arbitrary", "brute-force optimum oracle",
                        "per-channel FIFO delivery"]
-    n = 4000 if tier == "quick" else 40000
+    n = 4000 if tier == "quick" else 120000
     common.run_chunked(chk, "c02", n, nchunks=16 if tier == "quick" else 64,
                        job_extra={"nsched": 2 if tier == "quick" else 3}, timeout=3000)
     chk.inconclusive_if(chk.counters.get("optimum_compared", 0) < n // 2 and not chk.violations and not chk.known_seen,
